@@ -213,8 +213,9 @@ def insert_at_random(rng, lines, new, n=1):
     return out
 
 
-def multichain(rng, nchains=None, ter="TER   \n", oxt_prob=0.5, chains="ABCDEFGab2 ", separation=60.0):
-    """a multi-chain structure from library fragments, chains placed `separation` A apart"""
+def multichain(rng, nchains=None, ter="TER   \n", oxt_prob=0.5, chains="ABCDEFGab2 ", separation=60.0, twins=0.15):
+    """a multi-chain structure from library fragments, chains placed `separation` A apart; with probability `twins` two
+    residues share a number and differ in insertion code (same-type twins - equal printed labels - half of the time)"""
     n = nchains or rng.randint(2, 3)
     out = []
     ids = rng.sample(list(chains), n)
@@ -228,6 +229,13 @@ def multichain(rng, nchains=None, ter="TER   \n", oxt_prob=0.5, chains="ABCDEFGa
         out += frag
         if ter is not None and (rng.random() < 0.8 or i == n - 1):
             out.append(ter)
+    if rng.random() < twins:
+        tw = same_type_twins(rng, out) if rng.random() < 0.5 else None
+        if tw is None:
+            r = twin_residues(rng, out)
+            tw = r[0] if r else None
+        if tw is not None:
+            out = tw
     return renumber_serials(out), ids
 
 
